@@ -1272,7 +1272,9 @@ func (h *c14h) longSequences() {
 	h.cur = "sequences/long: n distinct ids x 3 passes through UniqueLogger"
 	// 262144 = every address of a /14 (1048576 = a /12 in the thorough tier): a seen-set that keeps a
 	// digest of the id instead of the id loses hosts only at such sizes
-	ns := []int{300, 1500, 5000, 1 << 18}
+	// n = 3: three hosts sighted 70000 times each (a live scan that runs for a day): more sightings of
+	// one host than a 16-bit counter holds
+	ns := []int{3, 300, 1500, 5000, 1 << 18}
 	if h.c.Thorough() {
 		ns = append(ns, 1<<20)
 	}
@@ -1296,11 +1298,15 @@ func (h *c14h) longSequences() {
 			}
 			var results []scan.Result
 			var firsts []c14obj
-			for pass := 0; pass < 3; pass++ {
+			passes := 3
+			if n == 3 {
+				passes = 70000
+			}
+			for pass := 0; pass < passes; pass++ {
 				for id := 0; id < n; id++ {
 					// the second pass runs backwards, the third forwards again
 					j := id
-					if pass == 1 {
+					if pass%2 == 1 {
 						j = n - 1 - id
 					}
 					r, spec := mk(j, len(results))
@@ -1321,7 +1327,7 @@ func (h *c14h) longSequences() {
 			if !term {
 				bad = "output does not end in a newline"
 			} else if len(lines) != n {
-				bad = fmt.Sprintf("%d distinct hosts were sighted (3 times each), %d records printed", n, len(lines))
+				bad = fmt.Sprintf("%d distinct hosts were sighted (%d times each), %d records printed", n, passes, len(lines))
 			} else {
 				for i, ln := range lines {
 					if cl, _, _ := c14judgeLine(firsts[i], ln); cl != "" {
@@ -1332,7 +1338,7 @@ func (h *c14h) longSequences() {
 			}
 			if bad != "" {
 				h.c.Outcome("seq:FAIL:long")
-				h.c.Fail(key, fmt.Sprintf("UniqueLogger over %d distinct hosts x 3 passes (channel capacity %d): %s", n, capa, bad), map[string]any{"part": "c14", "kind": "long-seq", "n": n, "cap": capa})
+				h.c.Fail(key, fmt.Sprintf("UniqueLogger over %d distinct hosts x %d passes (channel capacity %d): %s", n, passes, capa, bad), map[string]any{"part": "c14", "kind": "long-seq", "n": n, "cap": capa})
 				continue
 			}
 			h.c.Outcome("seq:ok-long")
